@@ -26,6 +26,7 @@ Record kind := mkKind {
   k_has_proto : bool;
   k_mediatype : ostr;
   k_conv : bool; k_ext : bool; k_skdm : bool;
+  k_more : bool;                  (* the payload has a (known) field other than the key distribution *)
   k_up : option string;           (* recv: class that must reach the application *)
   k_answer : answer               (* recv: mandatory answer *)
 }.
@@ -39,7 +40,7 @@ Definition feat_of (k : kind) (d : fields) : feat :=
   mkFeat (k_tag k) (k_xmlns k) (if k_type_free k then fd_type d else k_type k)
          (fd_id d) (fd_from d) (fd_to d) (fd_participant d) (k_mro k)
          (if k_children_free k then fd_children d else map (fun t => (t, fd_callid d)) (k_children k))
-         (k_has_proto k) (k_mediatype k) (k_conv k) (k_ext k) (k_skdm k) false.
+         (k_has_proto k) (k_mediatype k) (k_conv k) (k_ext k) (k_skdm k) (k_more k) false.
 
 Definition supported (c : flags) (k : kind) : bool :=
   match k_module k with None => true | Some m => flag_on c m end.
@@ -57,105 +58,125 @@ Definition expected_answer (k : kind) (d : fields) : list stanza :=
   end.
 
 Definition kinds : list kind := [
-  mkKind "recv.message.text.conversation" false None "message" None (Some "text") false [] ["proto"] false true None true false false (Some "TextMessageProtocolEntity") ANone;
-  mkKind "recv.message.text.extended" false None "message" None (Some "text") false [] ["proto"] false true None false true false (Some "ExtendedTextMessageProtocolEntity") ANone;
-  mkKind "recv.message.text.skdm+conversation" false None "message" None (Some "text") false [] ["proto"] false true None true false true (Some "TextMessageProtocolEntity") ANone;
-  mkKind "recv.message.text.skdm-only" false None "message" None (Some "text") false [] ["proto"] false true None false false true None ANone;
-  mkKind "recv.message.text.unsupported.protocol" false None "message" None (Some "text") false [] ["proto"] false true None false false false None ADelivery;
-  mkKind "recv.message.text.unsupported.unknown-field" false None "message" None (Some "text") false [] ["proto"] false true None false false false None ADelivery;
-  mkKind "recv.message.text.unsupported.empty" false None "message" None (Some "text") false [] ["proto"] false true None false false false None ADelivery;
-  mkKind "recv.message.text.unsupported.skdm+protocol" false None "message" None (Some "text") false [] ["proto"] false true None false false true None ANone (* known finding: dropped *);
-  mkKind "recv.message.media.image" false (Some MMedia) "message" None (Some "media") false [] ["proto"] false true (Some "image") false false false (Some "ImageDownloadableMediaMessageProtocolEntity") ANone;
-  mkKind "recv.message.media.sticker" false (Some MMedia) "message" None (Some "media") false [] ["proto"] false true (Some "sticker") false false false (Some "StickerDownloadableMediaMessageProtocolEntity") ANone;
-  mkKind "recv.message.media.audio" false (Some MMedia) "message" None (Some "media") false [] ["proto"] false true (Some "audio") false false false (Some "AudioDownloadableMediaMessageProtocolEntity") ANone;
-  mkKind "recv.message.media.ptt" false (Some MMedia) "message" None (Some "media") false [] ["proto"] false true (Some "ptt") false false false (Some "AudioDownloadableMediaMessageProtocolEntity") ANone;
-  mkKind "recv.message.media.video" false (Some MMedia) "message" None (Some "media") false [] ["proto"] false true (Some "video") false false false (Some "VideoDownloadableMediaMessageProtocolEntity") ANone;
-  mkKind "recv.message.media.gif" false (Some MMedia) "message" None (Some "media") false [] ["proto"] false true (Some "gif") false false false (Some "VideoDownloadableMediaMessageProtocolEntity") ANone;
-  mkKind "recv.message.media.location" false (Some MMedia) "message" None (Some "media") false [] ["proto"] false true (Some "location") false false false (Some "LocationMediaMessageProtocolEntity") ANone;
-  mkKind "recv.message.media.contact" false (Some MMedia) "message" None (Some "media") false [] ["proto"] false true (Some "contact") false false false (Some "ContactMediaMessageProtocolEntity") ANone;
-  mkKind "recv.message.media.document" false (Some MMedia) "message" None (Some "media") false [] ["proto"] false true (Some "document") false false false (Some "DocumentDownloadableMediaMessageProtocolEntity") ANone;
-  mkKind "recv.message.media.url" false (Some MMedia) "message" None (Some "media") false [] ["proto"] false true (Some "url") false true false (Some "ExtendedTextMediaMessageProtocolEntity") ANone;
-  mkKind "recv.receipt" false None "receipt" None None true [] [] true false None false false false (Some "IncomingReceiptProtocolEntity") ANone;
-  mkKind "recv.receipt.retry" false None "receipt" None (Some "retry") false [] ["retry"; "registration"] false false None false false false (Some "IncomingReceiptProtocolEntity") ANone;
-  mkKind "recv.ack" false None "ack" None None false [] [] false false None false false false (Some "IncomingAckProtocolEntity") ANone;
-  mkKind "recv.presence" false None "presence" None None true [] [] false false None false false false (Some "PresenceProtocolEntity") ANone;
-  mkKind "recv.chatstate" false None "chatstate" None None false [] [] true false None false false false (Some "IncomingChatstateProtocolEntity") ANone;
-  mkKind "recv.iq.ping" false None "iq" (Some "urn:xmpp:ping") (Some "get") false [] [] true false None false false false None APong;
-  mkKind "recv.iq.sync-result" false None "iq" None (Some "result") false [] ["sync"] false false None false false false (Some "ResultSyncIqProtocolEntity") ANone;
-  mkKind "recv.notification.picture.set" false None "notification" None (Some "picture") false [] ["set"] false false None false false false (Some "SetPictureNotificationProtocolEntity") ANotifAck;
-  mkKind "recv.notification.picture.delete" false None "notification" None (Some "picture") false [] ["delete"] false false None false false false (Some "DeletePictureNotificationProtocolEntity") ANotifAck;
-  mkKind "recv.notification.status" false None "notification" None (Some "status") false [] ["set"] false false None false false false (Some "StatusNotificationProtocolEntity") ANotifAck;
-  mkKind "recv.notification.contacts.add" false None "notification" None (Some "contacts") false [] ["add"] false false None false false false (Some "AddContactNotificationProtocolEntity") ANotifAck;
-  mkKind "recv.notification.contacts.remove" false None "notification" None (Some "contacts") false [] ["remove"] false false None false false false (Some "RemoveContactNotificationProtocolEntity") ANotifAck;
-  mkKind "recv.notification.contacts.update" false None "notification" None (Some "contacts") false [] ["update"] false false None false false false (Some "UpdateContactNotificationProtocolEntity") ANotifAck;
-  mkKind "recv.notification.contacts.sync" false None "notification" None (Some "contacts") false [] ["sync"] false false None false false false (Some "ContactsSyncNotificationProtocolEntity") ANotifAck;
-  mkKind "recv.notification.w:gp2.subject" false (Some MGroups) "notification" None (Some "w:gp2") false [] ["subject"] false false None false false false (Some "SubjectGroupsNotificationProtocolEntity") ANotifAck;
-  mkKind "recv.notification.w:gp2.create" false (Some MGroups) "notification" None (Some "w:gp2") false [] ["create"] false false None false false false (Some "CreateGroupsNotificationProtocolEntity") ANotifAck;
-  mkKind "recv.notification.w:gp2.remove" false (Some MGroups) "notification" None (Some "w:gp2") false [] ["remove"] false false None false false false (Some "RemoveGroupsNotificationProtocolEntity") ANotifAck;
-  mkKind "recv.notification.w:gp2.add" false (Some MGroups) "notification" None (Some "w:gp2") false [] ["add"] false false None false false false (Some "AddGroupsNotificationProtocolEntity") ANotifAck;
-  mkKind "recv.notification.subject" false None "notification" None (Some "subject") false [] ["body"] false false None false false false None ANotifAck;
-  mkKind "recv.notification.encrypt.count" false None "notification" None (Some "encrypt") false [] ["count"] false false None false false false None ANotifAck;
-  mkKind "recv.notification.encrypt.identity" false None "notification" None (Some "encrypt") false [] ["identity"] false false None false false false None ANotifAck;
-  mkKind "recv.call.offer" false None "call" None None false [] ["offer"] false false None false false false (Some "CallProtocolEntity") ACallReceipt;
-  mkKind "recv.ib.dirty" false None "ib" None None false [] ["dirty"] false false None false false false (Some "DirtyIbProtocolEntity") ANone;
-  mkKind "recv.ib.offline" false None "ib" None None false [] ["offline"] false false None false false false (Some "OfflineIbProtocolEntity") ANone;
-  mkKind "recv.ib.account" false None "ib" None None false [] ["account"] false false None false false false (Some "AccountIbProtocolEntity") ANone;
-  mkKind "recv.auth.stream:features" false None "stream:features" None None false [] [] true false None false false false (Some "StreamFeaturesProtocolEntity") ANone;
-  mkKind "recv.auth.success" false None "success" None None false [] [] false false None false false false (Some "SuccessProtocolEntity") ANone;
-  mkKind "recv.auth.failure" false None "failure" None None false [] [] false false None false false false (Some "FailureProtocolEntity") ANone;
-  mkKind "recv.auth.stream:error.conflict" false None "stream:error" None None false [] ["conflict"; "text"] false false None false false false (Some "StreamErrorProtocolEntity") ANone;
-  mkKind "recv.auth.stream:error.ack" false None "stream:error" None None false [] ["ack"] false false None false false false (Some "StreamErrorProtocolEntity") ANone;
-  mkKind "recv.auth.stream:error.xml-not-well-formed" false None "stream:error" None None false [] ["xml-not-well-formed"] false false None false false false (Some "StreamErrorProtocolEntity") ANone;
-  mkKind "send.message.text" true None "message" None (Some "text") false ["TextMessageProtocolEntity"; "ProtomessageProtocolEntity"; "MessageProtocolEntity"; "ProtocolEntity"] [] false false None false false false None ANone;
-  mkKind "send.message.text.broadcast" true None "message" None (Some "text") false ["BroadcastTextMessage"; "TextMessageProtocolEntity"; "ProtomessageProtocolEntity"; "MessageProtocolEntity"; "ProtocolEntity"] [] false false None false false false None ANone;
-  mkKind "send.message.extendedtext" true None "message" None (Some "text") false ["ExtendedTextMessageProtocolEntity"; "ProtomessageProtocolEntity"; "MessageProtocolEntity"; "ProtocolEntity"] [] false false None false false false None ANone;
-  mkKind "send.message.media.image" true (Some MMedia) "message" None (Some "media") false ["ImageDownloadableMediaMessageProtocolEntity"; "DownloadableMediaMessageProtocolEntity"; "MediaMessageProtocolEntity"; "ProtomessageProtocolEntity"; "MessageProtocolEntity"; "ProtocolEntity"] [] false false None false false false None ANone;
-  mkKind "send.message.media.sticker" true (Some MMedia) "message" None (Some "media") false ["StickerDownloadableMediaMessageProtocolEntity"; "DownloadableMediaMessageProtocolEntity"; "MediaMessageProtocolEntity"; "ProtomessageProtocolEntity"; "MessageProtocolEntity"; "ProtocolEntity"] [] false false None false false false None ANone;
-  mkKind "send.message.media.audio" true (Some MMedia) "message" None (Some "media") false ["AudioDownloadableMediaMessageProtocolEntity"; "DownloadableMediaMessageProtocolEntity"; "MediaMessageProtocolEntity"; "ProtomessageProtocolEntity"; "MessageProtocolEntity"; "ProtocolEntity"] [] false false None false false false None ANone;
-  mkKind "send.message.media.video" true (Some MMedia) "message" None (Some "media") false ["VideoDownloadableMediaMessageProtocolEntity"; "DownloadableMediaMessageProtocolEntity"; "MediaMessageProtocolEntity"; "ProtomessageProtocolEntity"; "MessageProtocolEntity"; "ProtocolEntity"] [] false false None false false false None ANone;
-  mkKind "send.message.media.document" true (Some MMedia) "message" None (Some "media") false ["DocumentDownloadableMediaMessageProtocolEntity"; "DownloadableMediaMessageProtocolEntity"; "MediaMessageProtocolEntity"; "ProtomessageProtocolEntity"; "MessageProtocolEntity"; "ProtocolEntity"] [] false false None false false false None ANone;
-  mkKind "send.message.media.location" true (Some MMedia) "message" None (Some "media") false ["LocationMediaMessageProtocolEntity"; "MediaMessageProtocolEntity"; "ProtomessageProtocolEntity"; "MessageProtocolEntity"; "ProtocolEntity"] [] false false None false false false None ANone;
-  mkKind "send.message.media.contact" true (Some MMedia) "message" None (Some "media") false ["ContactMediaMessageProtocolEntity"; "MediaMessageProtocolEntity"; "ProtomessageProtocolEntity"; "MessageProtocolEntity"; "ProtocolEntity"] [] false false None false false false None ANone;
-  mkKind "send.message.media.url" true (Some MMedia) "message" None (Some "media") false ["ExtendedTextMediaMessageProtocolEntity"; "MediaMessageProtocolEntity"; "ProtomessageProtocolEntity"; "MessageProtocolEntity"; "ProtocolEntity"] [] false false None false false false None ANone;
-  mkKind "send.receipt" true None "receipt" None None false ["OutgoingReceiptProtocolEntity"; "ReceiptProtocolEntity"; "ProtocolEntity"] [] false false None false false false None ANone;
-  mkKind "send.receipt.retry" true None "receipt" None None false ["RetryOutgoingReceiptProtocolEntity"; "OutgoingReceiptProtocolEntity"; "ReceiptProtocolEntity"; "ProtocolEntity"] [] false false None false false false None ANone;
-  mkKind "send.ack" true None "ack" None None false ["OutgoingAckProtocolEntity"; "AckProtocolEntity"; "ProtocolEntity"] [] false false None false false false None ANone;
-  mkKind "send.presence.available" true None "presence" None (Some "available") false ["AvailablePresenceProtocolEntity"; "PresenceProtocolEntity"; "ProtocolEntity"] [] false false None false false false None ANone;
-  mkKind "send.presence.unavailable" true None "presence" None (Some "unavailable") false ["UnavailablePresenceProtocolEntity"; "PresenceProtocolEntity"; "ProtocolEntity"] [] false false None false false false None ANone;
-  mkKind "send.presence.subscribe" true None "presence" None (Some "subscribe") false ["SubscribePresenceProtocolEntity"; "PresenceProtocolEntity"; "ProtocolEntity"] [] false false None false false false None ANone;
-  mkKind "send.presence.unsubscribe" true None "presence" None (Some "unsubscribe") false ["UnsubscribePresenceProtocolEntity"; "PresenceProtocolEntity"; "ProtocolEntity"] [] false false None false false false None ANone;
-  mkKind "send.presence.generic" true None "presence" None None true ["PresenceProtocolEntity"; "ProtocolEntity"] [] false false None false false false None ANone;
-  mkKind "send.chatstate" true None "chatstate" None None false ["OutgoingChatstateProtocolEntity"; "ChatstateProtocolEntity"; "ProtocolEntity"] [] false false None false false false None ANone;
-  mkKind "send.notification" true None "notification" None None true ["NotificationProtocolEntity"; "ProtocolEntity"] [] false false None false false false None ANone;
-  mkKind "send.call" true None "call" None None true ["CallProtocolEntity"; "ProtocolEntity"] [] false false None false false false None ANone;
-  mkKind "send.iq.push" true None "iq" (Some "urn:xmpp:whatsapp:push") (Some "get") false ["PushIqProtocolEntity"; "IqProtocolEntity"; "ProtocolEntity"] [] false false None false false false None ANone;
-  mkKind "send.iq.props" true None "iq" (Some "w") (Some "get") false ["PropsIqProtocolEntity"; "IqProtocolEntity"; "ProtocolEntity"] [] false false None false false false None ANone;
-  mkKind "send.iq.unregister" true (Some MProfiles) "iq" None (Some "get") false ["UnregisterIqProtocolEntity"; "IqProtocolEntity"; "ProtocolEntity"] [] false false None false false false None ANone;
-  mkKind "send.iq.keys.get" true None "iq" (Some "encrypt") (Some "get") false ["GetKeysIqProtocolEntity"; "IqProtocolEntity"; "ProtocolEntity"] [] false false None false false false None ANone;
-  mkKind "send.iq.keys.set" true None "iq" (Some "encrypt") (Some "set") false ["SetKeysIqProtocolEntity"; "IqProtocolEntity"; "ProtocolEntity"] [] false false None false false false None ANone;
-  mkKind "send.iq.sync.get" true None "iq" (Some "urn:xmpp:whatsapp:sync") (Some "get") false ["GetSyncIqProtocolEntity"; "SyncIqProtocolEntity"; "IqProtocolEntity"; "ProtocolEntity"] [] false false None false false false None ANone;
-  mkKind "send.iq.clean" true None "iq" (Some "urn:xmpp:whatsapp:dirty") (Some "set") false ["CleanIqProtocolEntity"; "IqProtocolEntity"; "ProtocolEntity"] [] false false None false false false None ANone;
-  mkKind "send.iq.privacylist" true (Some MPrivacy) "iq" (Some "jabber:iq:privacy") (Some "get") false ["PrivacyListIqProtocolEntity"; "IqProtocolEntity"; "ProtocolEntity"] [] false false None false false false None ANone;
-  mkKind "send.iq.ping" true None "iq" (Some "w:p") (Some "get") false ["PingIqProtocolEntity"; "IqProtocolEntity"; "ProtocolEntity"] [] false false None false false false None ANone;
-  mkKind "send.iq.lastseen" true None "iq" (Some "jabber:iq:last") (Some "get") false ["LastseenIqProtocolEntity"; "IqProtocolEntity"; "ProtocolEntity"] [] false false None false false false None ANone;
-  mkKind "send.iq.groups.create" true (Some MGroups) "iq" (Some "w:g2") (Some "set") false ["CreateGroupsIqProtocolEntity"; "GroupsIqProtocolEntity"; "IqProtocolEntity"; "ProtocolEntity"] [] false false None false false false None ANone;
-  mkKind "send.iq.groups.info" true (Some MGroups) "iq" (Some "w:g2") (Some "get") false ["InfoGroupsIqProtocolEntity"; "GroupsIqProtocolEntity"; "IqProtocolEntity"; "ProtocolEntity"] [] false false None false false false None ANone;
-  mkKind "send.iq.groups.leave" true (Some MGroups) "iq" (Some "w:g2") (Some "set") false ["LeaveGroupsIqProtocolEntity"; "GroupsIqProtocolEntity"; "IqProtocolEntity"; "ProtocolEntity"] [] false false None false false false None ANone;
-  mkKind "send.iq.groups.list" true (Some MGroups) "iq" (Some "w:g2") (Some "get") false ["ListGroupsIqProtocolEntity"; "GroupsIqProtocolEntity"; "IqProtocolEntity"; "ProtocolEntity"] [] false false None false false false None ANone;
-  mkKind "send.iq.groups.subject" true (Some MGroups) "iq" (Some "w:g2") (Some "set") false ["SubjectGroupsIqProtocolEntity"; "GroupsIqProtocolEntity"; "IqProtocolEntity"; "ProtocolEntity"] [] false false None false false false None ANone;
-  mkKind "send.iq.groups.participants" true (Some MGroups) "iq" (Some "w:g2") (Some "set") false ["ParticipantsGroupsIqProtocolEntity"; "GroupsIqProtocolEntity"; "IqProtocolEntity"; "ProtocolEntity"] [] false false None false false false None ANone;
-  mkKind "send.iq.groups.participants.add" true (Some MGroups) "iq" (Some "w:g2") (Some "set") false ["AddParticipantsIqProtocolEntity"; "ParticipantsGroupsIqProtocolEntity"; "GroupsIqProtocolEntity"; "IqProtocolEntity"; "ProtocolEntity"] [] false false None false false false None ANone;
-  mkKind "send.iq.groups.participants.promote" true (Some MGroups) "iq" (Some "w:g2") (Some "set") false ["PromoteParticipantsIqProtocolEntity"; "ParticipantsGroupsIqProtocolEntity"; "GroupsIqProtocolEntity"; "IqProtocolEntity"; "ProtocolEntity"] [] false false None false false false None ANone;
-  mkKind "send.iq.groups.participants.demote" true (Some MGroups) "iq" (Some "w:g2") (Some "set") false ["DemoteParticipantsIqProtocolEntity"; "ParticipantsGroupsIqProtocolEntity"; "GroupsIqProtocolEntity"; "IqProtocolEntity"; "ProtocolEntity"] [] false false None false false false None ANone;
-  mkKind "send.iq.groups.participants.remove" true (Some MGroups) "iq" (Some "w:g2") (Some "set") false ["RemoveParticipantsIqProtocolEntity"; "ParticipantsGroupsIqProtocolEntity"; "GroupsIqProtocolEntity"; "IqProtocolEntity"; "ProtocolEntity"] [] false false None false false false None ANone;
-  mkKind "send.iq.picture.get" true (Some MProfiles) "iq" (Some "w:profile:picture") (Some "get") false ["GetPictureIqProtocolEntity"; "PictureIqProtocolEntity"; "IqProtocolEntity"; "ProtocolEntity"] [] false false None false false false None ANone;
-  mkKind "send.iq.picture.set" true (Some MProfiles) "iq" (Some "w:profile:picture") (Some "set") false ["SetPictureIqProtocolEntity"; "PictureIqProtocolEntity"; "IqProtocolEntity"; "ProtocolEntity"] [] false false None false false false None ANone;
-  mkKind "send.iq.picture.list" true (Some MProfiles) "iq" (Some "w:profile:picture") (Some "get") false ["ListPicturesIqProtocolEntity"; "PictureIqProtocolEntity"; "IqProtocolEntity"; "ProtocolEntity"] [] false false None false false false None ANone;
-  mkKind "send.iq.privacy.get" true (Some MProfiles) "iq" (Some "privacy") (Some "get") false ["GetPrivacyIqProtocolEntity"; "IqProtocolEntity"; "ProtocolEntity"] [] false false None false false false None ANone;
-  mkKind "send.iq.privacy.set" true (Some MProfiles) "iq" (Some "privacy") (Some "set") false ["SetPrivacyIqProtocolEntity"; "IqProtocolEntity"; "ProtocolEntity"] [] false false None false false false None ANone;
-  mkKind "send.iq.statuses.get" true (Some MProfiles) "iq" (Some "status") (Some "get") false ["GetStatusesIqProtocolEntity"; "IqProtocolEntity"; "ProtocolEntity"] [] false false None false false false None ANone;
-  mkKind "send.iq.status.set" true (Some MProfiles) "iq" (Some "status") (Some "set") false ["SetStatusIqProtocolEntity"; "IqProtocolEntity"; "ProtocolEntity"] [] false false None false false false None ANone;
-  mkKind "send.iq.requestupload" true (Some MMedia) "iq" (Some "w:m") (Some "set") false ["RequestUploadIqProtocolEntity"; "IqProtocolEntity"; "ProtocolEntity"] [] false false None false false false None ANone
+  mkKind "recv.message.text.conversation" false None "message" None (Some "text") false [] ["proto"] false true None true false false true (Some "TextMessageProtocolEntity") ANone;
+  mkKind "recv.message.text.extended" false None "message" None (Some "text") false [] ["proto"] false true None false true false true (Some "ExtendedTextMessageProtocolEntity") ANone;
+  mkKind "recv.message.text.skdm+conversation" false None "message" None (Some "text") false [] ["proto"] false true None true false true true (Some "TextMessageProtocolEntity") ANone;
+  mkKind "recv.message.text.skdm-only" false None "message" None (Some "text") false [] ["proto"] false true None false false true false None ANone;
+  mkKind "recv.message.text.unsupported.protocol" false None "message" None (Some "text") false [] ["proto"] false true None false false false true None ADelivery;
+  mkKind "recv.message.text.unsupported.unknown-field" false None "message" None (Some "text") false [] ["proto"] false true None false false false true None ADelivery;
+  mkKind "recv.message.text.unsupported.empty" false None "message" None (Some "text") false [] ["proto"] false true None false false false false None ADelivery;
+  mkKind "recv.message.text.unsupported.skdm+protocol" false None "message" None (Some "text") false [] ["proto"] false true None false false true true None ADelivery;
+  mkKind "recv.message.media.image" false (Some MMedia) "message" None (Some "media") false [] ["proto"] false true (Some "image") false false false true (Some "ImageDownloadableMediaMessageProtocolEntity") ANone;
+  mkKind "recv.message.media.image.skdm+media" false (Some MMedia) "message" None (Some "media") false [] ["proto"] false true (Some "image") false false true true (Some "ImageDownloadableMediaMessageProtocolEntity") ANone;
+  mkKind "recv.message.media.image.skdm-only" false (Some MMedia) "message" None (Some "media") false [] ["proto"] false true (Some "image") false false true false None ANone;
+  mkKind "recv.message.media.sticker" false (Some MMedia) "message" None (Some "media") false [] ["proto"] false true (Some "sticker") false false false true (Some "StickerDownloadableMediaMessageProtocolEntity") ANone;
+  mkKind "recv.message.media.sticker.skdm+media" false (Some MMedia) "message" None (Some "media") false [] ["proto"] false true (Some "sticker") false false true true (Some "StickerDownloadableMediaMessageProtocolEntity") ANone;
+  mkKind "recv.message.media.sticker.skdm-only" false (Some MMedia) "message" None (Some "media") false [] ["proto"] false true (Some "sticker") false false true false None ANone;
+  mkKind "recv.message.media.audio" false (Some MMedia) "message" None (Some "media") false [] ["proto"] false true (Some "audio") false false false true (Some "AudioDownloadableMediaMessageProtocolEntity") ANone;
+  mkKind "recv.message.media.audio.skdm+media" false (Some MMedia) "message" None (Some "media") false [] ["proto"] false true (Some "audio") false false true true (Some "AudioDownloadableMediaMessageProtocolEntity") ANone;
+  mkKind "recv.message.media.audio.skdm-only" false (Some MMedia) "message" None (Some "media") false [] ["proto"] false true (Some "audio") false false true false None ANone;
+  mkKind "recv.message.media.ptt" false (Some MMedia) "message" None (Some "media") false [] ["proto"] false true (Some "ptt") false false false true (Some "AudioDownloadableMediaMessageProtocolEntity") ANone;
+  mkKind "recv.message.media.ptt.skdm+media" false (Some MMedia) "message" None (Some "media") false [] ["proto"] false true (Some "ptt") false false true true (Some "AudioDownloadableMediaMessageProtocolEntity") ANone;
+  mkKind "recv.message.media.ptt.skdm-only" false (Some MMedia) "message" None (Some "media") false [] ["proto"] false true (Some "ptt") false false true false None ANone;
+  mkKind "recv.message.media.video" false (Some MMedia) "message" None (Some "media") false [] ["proto"] false true (Some "video") false false false true (Some "VideoDownloadableMediaMessageProtocolEntity") ANone;
+  mkKind "recv.message.media.video.skdm+media" false (Some MMedia) "message" None (Some "media") false [] ["proto"] false true (Some "video") false false true true (Some "VideoDownloadableMediaMessageProtocolEntity") ANone;
+  mkKind "recv.message.media.video.skdm-only" false (Some MMedia) "message" None (Some "media") false [] ["proto"] false true (Some "video") false false true false None ANone;
+  mkKind "recv.message.media.gif" false (Some MMedia) "message" None (Some "media") false [] ["proto"] false true (Some "gif") false false false true (Some "VideoDownloadableMediaMessageProtocolEntity") ANone;
+  mkKind "recv.message.media.gif.skdm+media" false (Some MMedia) "message" None (Some "media") false [] ["proto"] false true (Some "gif") false false true true (Some "VideoDownloadableMediaMessageProtocolEntity") ANone;
+  mkKind "recv.message.media.gif.skdm-only" false (Some MMedia) "message" None (Some "media") false [] ["proto"] false true (Some "gif") false false true false None ANone;
+  mkKind "recv.message.media.location" false (Some MMedia) "message" None (Some "media") false [] ["proto"] false true (Some "location") false false false true (Some "LocationMediaMessageProtocolEntity") ANone;
+  mkKind "recv.message.media.location.skdm+media" false (Some MMedia) "message" None (Some "media") false [] ["proto"] false true (Some "location") false false true true (Some "LocationMediaMessageProtocolEntity") ANone;
+  mkKind "recv.message.media.location.skdm-only" false (Some MMedia) "message" None (Some "media") false [] ["proto"] false true (Some "location") false false true false None ANone;
+  mkKind "recv.message.media.contact" false (Some MMedia) "message" None (Some "media") false [] ["proto"] false true (Some "contact") false false false true (Some "ContactMediaMessageProtocolEntity") ANone;
+  mkKind "recv.message.media.contact.skdm+media" false (Some MMedia) "message" None (Some "media") false [] ["proto"] false true (Some "contact") false false true true (Some "ContactMediaMessageProtocolEntity") ANone;
+  mkKind "recv.message.media.contact.skdm-only" false (Some MMedia) "message" None (Some "media") false [] ["proto"] false true (Some "contact") false false true false None ANone;
+  mkKind "recv.message.media.document" false (Some MMedia) "message" None (Some "media") false [] ["proto"] false true (Some "document") false false false true (Some "DocumentDownloadableMediaMessageProtocolEntity") ANone;
+  mkKind "recv.message.media.document.skdm+media" false (Some MMedia) "message" None (Some "media") false [] ["proto"] false true (Some "document") false false true true (Some "DocumentDownloadableMediaMessageProtocolEntity") ANone;
+  mkKind "recv.message.media.document.skdm-only" false (Some MMedia) "message" None (Some "media") false [] ["proto"] false true (Some "document") false false true false None ANone;
+  mkKind "recv.message.media.url" false (Some MMedia) "message" None (Some "media") false [] ["proto"] false true (Some "url") false true false true (Some "ExtendedTextMediaMessageProtocolEntity") ANone;
+  mkKind "recv.message.media.url.skdm+media" false (Some MMedia) "message" None (Some "media") false [] ["proto"] false true (Some "url") false true true true (Some "ExtendedTextMediaMessageProtocolEntity") ANone;
+  mkKind "recv.message.media.url.skdm-only" false (Some MMedia) "message" None (Some "media") false [] ["proto"] false true (Some "url") false false true false None ANone;
+  mkKind "recv.receipt" false None "receipt" None None true [] [] true false None false false false false (Some "IncomingReceiptProtocolEntity") ANone;
+  mkKind "recv.receipt.retry" false None "receipt" None (Some "retry") false [] ["retry"; "registration"] false false None false false false false (Some "IncomingReceiptProtocolEntity") ANone;
+  mkKind "recv.ack" false None "ack" None None false [] [] false false None false false false false (Some "IncomingAckProtocolEntity") ANone;
+  mkKind "recv.presence" false None "presence" None None true [] [] false false None false false false false (Some "PresenceProtocolEntity") ANone;
+  mkKind "recv.chatstate" false None "chatstate" None None false [] [] true false None false false false false (Some "IncomingChatstateProtocolEntity") ANone;
+  mkKind "recv.iq.ping" false None "iq" (Some "urn:xmpp:ping") (Some "get") false [] [] true false None false false false false None APong;
+  mkKind "recv.iq.sync-result" false None "iq" None (Some "result") false [] ["sync"] false false None false false false false (Some "ResultSyncIqProtocolEntity") ANone;
+  mkKind "recv.notification.picture.set" false None "notification" None (Some "picture") false [] ["set"] false false None false false false false (Some "SetPictureNotificationProtocolEntity") ANotifAck;
+  mkKind "recv.notification.picture.delete" false None "notification" None (Some "picture") false [] ["delete"] false false None false false false false (Some "DeletePictureNotificationProtocolEntity") ANotifAck;
+  mkKind "recv.notification.status" false None "notification" None (Some "status") false [] ["set"] false false None false false false false (Some "StatusNotificationProtocolEntity") ANotifAck;
+  mkKind "recv.notification.contacts.add" false None "notification" None (Some "contacts") false [] ["add"] false false None false false false false (Some "AddContactNotificationProtocolEntity") ANotifAck;
+  mkKind "recv.notification.contacts.remove" false None "notification" None (Some "contacts") false [] ["remove"] false false None false false false false (Some "RemoveContactNotificationProtocolEntity") ANotifAck;
+  mkKind "recv.notification.contacts.update" false None "notification" None (Some "contacts") false [] ["update"] false false None false false false false (Some "UpdateContactNotificationProtocolEntity") ANotifAck;
+  mkKind "recv.notification.contacts.sync" false None "notification" None (Some "contacts") false [] ["sync"] false false None false false false false (Some "ContactsSyncNotificationProtocolEntity") ANotifAck;
+  mkKind "recv.notification.w:gp2.subject" false (Some MGroups) "notification" None (Some "w:gp2") false [] ["subject"] false false None false false false false (Some "SubjectGroupsNotificationProtocolEntity") ANotifAck;
+  mkKind "recv.notification.w:gp2.create" false (Some MGroups) "notification" None (Some "w:gp2") false [] ["create"] false false None false false false false (Some "CreateGroupsNotificationProtocolEntity") ANotifAck;
+  mkKind "recv.notification.w:gp2.remove" false (Some MGroups) "notification" None (Some "w:gp2") false [] ["remove"] false false None false false false false (Some "RemoveGroupsNotificationProtocolEntity") ANotifAck;
+  mkKind "recv.notification.w:gp2.add" false (Some MGroups) "notification" None (Some "w:gp2") false [] ["add"] false false None false false false false (Some "AddGroupsNotificationProtocolEntity") ANotifAck;
+  mkKind "recv.notification.subject" false None "notification" None (Some "subject") false [] ["body"] false false None false false false false None ANotifAck;
+  mkKind "recv.notification.encrypt.count" false None "notification" None (Some "encrypt") false [] ["count"] false false None false false false false None ANotifAck;
+  mkKind "recv.notification.encrypt.identity" false None "notification" None (Some "encrypt") false [] ["identity"] false false None false false false false None ANotifAck;
+  mkKind "recv.call.offer" false None "call" None None false [] ["offer"] false false None false false false false (Some "CallProtocolEntity") ACallReceipt;
+  mkKind "recv.ib.dirty" false None "ib" None None false [] ["dirty"] false false None false false false false (Some "DirtyIbProtocolEntity") ANone;
+  mkKind "recv.ib.offline" false None "ib" None None false [] ["offline"] false false None false false false false (Some "OfflineIbProtocolEntity") ANone;
+  mkKind "recv.ib.account" false None "ib" None None false [] ["account"] false false None false false false false (Some "AccountIbProtocolEntity") ANone;
+  mkKind "recv.auth.stream:features" false None "stream:features" None None false [] [] true false None false false false false (Some "StreamFeaturesProtocolEntity") ANone;
+  mkKind "recv.auth.success" false None "success" None None false [] [] false false None false false false false (Some "SuccessProtocolEntity") ANone;
+  mkKind "recv.auth.failure" false None "failure" None None false [] [] false false None false false false false (Some "FailureProtocolEntity") ANone;
+  mkKind "recv.auth.stream:error.conflict" false None "stream:error" None None false [] ["conflict"; "text"] false false None false false false false (Some "StreamErrorProtocolEntity") ANone;
+  mkKind "recv.auth.stream:error.ack" false None "stream:error" None None false [] ["ack"] false false None false false false false (Some "StreamErrorProtocolEntity") ANone;
+  mkKind "recv.auth.stream:error.xml-not-well-formed" false None "stream:error" None None false [] ["xml-not-well-formed"] false false None false false false false (Some "StreamErrorProtocolEntity") ANone;
+  mkKind "send.message.text" true None "message" None (Some "text") false ["TextMessageProtocolEntity"; "ProtomessageProtocolEntity"; "MessageProtocolEntity"; "ProtocolEntity"] [] false false None false false false false None ANone;
+  mkKind "send.message.text.broadcast" true None "message" None (Some "text") false ["BroadcastTextMessage"; "TextMessageProtocolEntity"; "ProtomessageProtocolEntity"; "MessageProtocolEntity"; "ProtocolEntity"] [] false false None false false false false None ANone;
+  mkKind "send.message.extendedtext" true None "message" None (Some "text") false ["ExtendedTextMessageProtocolEntity"; "ProtomessageProtocolEntity"; "MessageProtocolEntity"; "ProtocolEntity"] [] false false None false false false false None ANone;
+  mkKind "send.message.media.image" true (Some MMedia) "message" None (Some "media") false ["ImageDownloadableMediaMessageProtocolEntity"; "DownloadableMediaMessageProtocolEntity"; "MediaMessageProtocolEntity"; "ProtomessageProtocolEntity"; "MessageProtocolEntity"; "ProtocolEntity"] [] false false None false false false false None ANone;
+  mkKind "send.message.media.sticker" true (Some MMedia) "message" None (Some "media") false ["StickerDownloadableMediaMessageProtocolEntity"; "DownloadableMediaMessageProtocolEntity"; "MediaMessageProtocolEntity"; "ProtomessageProtocolEntity"; "MessageProtocolEntity"; "ProtocolEntity"] [] false false None false false false false None ANone;
+  mkKind "send.message.media.audio" true (Some MMedia) "message" None (Some "media") false ["AudioDownloadableMediaMessageProtocolEntity"; "DownloadableMediaMessageProtocolEntity"; "MediaMessageProtocolEntity"; "ProtomessageProtocolEntity"; "MessageProtocolEntity"; "ProtocolEntity"] [] false false None false false false false None ANone;
+  mkKind "send.message.media.video" true (Some MMedia) "message" None (Some "media") false ["VideoDownloadableMediaMessageProtocolEntity"; "DownloadableMediaMessageProtocolEntity"; "MediaMessageProtocolEntity"; "ProtomessageProtocolEntity"; "MessageProtocolEntity"; "ProtocolEntity"] [] false false None false false false false None ANone;
+  mkKind "send.message.media.document" true (Some MMedia) "message" None (Some "media") false ["DocumentDownloadableMediaMessageProtocolEntity"; "DownloadableMediaMessageProtocolEntity"; "MediaMessageProtocolEntity"; "ProtomessageProtocolEntity"; "MessageProtocolEntity"; "ProtocolEntity"] [] false false None false false false false None ANone;
+  mkKind "send.message.media.location" true (Some MMedia) "message" None (Some "media") false ["LocationMediaMessageProtocolEntity"; "MediaMessageProtocolEntity"; "ProtomessageProtocolEntity"; "MessageProtocolEntity"; "ProtocolEntity"] [] false false None false false false false None ANone;
+  mkKind "send.message.media.contact" true (Some MMedia) "message" None (Some "media") false ["ContactMediaMessageProtocolEntity"; "MediaMessageProtocolEntity"; "ProtomessageProtocolEntity"; "MessageProtocolEntity"; "ProtocolEntity"] [] false false None false false false false None ANone;
+  mkKind "send.message.media.url" true (Some MMedia) "message" None (Some "media") false ["ExtendedTextMediaMessageProtocolEntity"; "MediaMessageProtocolEntity"; "ProtomessageProtocolEntity"; "MessageProtocolEntity"; "ProtocolEntity"] [] false false None false false false false None ANone;
+  mkKind "send.receipt" true None "receipt" None None false ["OutgoingReceiptProtocolEntity"; "ReceiptProtocolEntity"; "ProtocolEntity"] [] false false None false false false false None ANone;
+  mkKind "send.receipt.retry" true None "receipt" None None false ["RetryOutgoingReceiptProtocolEntity"; "OutgoingReceiptProtocolEntity"; "ReceiptProtocolEntity"; "ProtocolEntity"] [] false false None false false false false None ANone;
+  mkKind "send.ack" true None "ack" None None false ["OutgoingAckProtocolEntity"; "AckProtocolEntity"; "ProtocolEntity"] [] false false None false false false false None ANone;
+  mkKind "send.presence.available" true None "presence" None (Some "available") false ["AvailablePresenceProtocolEntity"; "PresenceProtocolEntity"; "ProtocolEntity"] [] false false None false false false false None ANone;
+  mkKind "send.presence.unavailable" true None "presence" None (Some "unavailable") false ["UnavailablePresenceProtocolEntity"; "PresenceProtocolEntity"; "ProtocolEntity"] [] false false None false false false false None ANone;
+  mkKind "send.presence.subscribe" true None "presence" None (Some "subscribe") false ["SubscribePresenceProtocolEntity"; "PresenceProtocolEntity"; "ProtocolEntity"] [] false false None false false false false None ANone;
+  mkKind "send.presence.unsubscribe" true None "presence" None (Some "unsubscribe") false ["UnsubscribePresenceProtocolEntity"; "PresenceProtocolEntity"; "ProtocolEntity"] [] false false None false false false false None ANone;
+  mkKind "send.presence.generic" true None "presence" None None true ["PresenceProtocolEntity"; "ProtocolEntity"] [] false false None false false false false None ANone;
+  mkKind "send.chatstate" true None "chatstate" None None false ["OutgoingChatstateProtocolEntity"; "ChatstateProtocolEntity"; "ProtocolEntity"] [] false false None false false false false None ANone;
+  mkKind "send.notification" true None "notification" None None true ["NotificationProtocolEntity"; "ProtocolEntity"] [] false false None false false false false None ANone;
+  mkKind "send.call" true None "call" None None true ["CallProtocolEntity"; "ProtocolEntity"] [] false false None false false false false None ANone;
+  mkKind "send.iq.push" true None "iq" (Some "urn:xmpp:whatsapp:push") (Some "get") false ["PushIqProtocolEntity"; "IqProtocolEntity"; "ProtocolEntity"] [] false false None false false false false None ANone;
+  mkKind "send.iq.props" true None "iq" (Some "w") (Some "get") false ["PropsIqProtocolEntity"; "IqProtocolEntity"; "ProtocolEntity"] [] false false None false false false false None ANone;
+  mkKind "send.iq.unregister" true (Some MProfiles) "iq" None (Some "get") false ["UnregisterIqProtocolEntity"; "IqProtocolEntity"; "ProtocolEntity"] [] false false None false false false false None ANone;
+  mkKind "send.iq.keys.get" true None "iq" (Some "encrypt") (Some "get") false ["GetKeysIqProtocolEntity"; "IqProtocolEntity"; "ProtocolEntity"] [] false false None false false false false None ANone;
+  mkKind "send.iq.keys.set" true None "iq" (Some "encrypt") (Some "set") false ["SetKeysIqProtocolEntity"; "IqProtocolEntity"; "ProtocolEntity"] [] false false None false false false false None ANone;
+  mkKind "send.iq.sync.get" true None "iq" (Some "urn:xmpp:whatsapp:sync") (Some "get") false ["GetSyncIqProtocolEntity"; "SyncIqProtocolEntity"; "IqProtocolEntity"; "ProtocolEntity"] [] false false None false false false false None ANone;
+  mkKind "send.iq.clean" true None "iq" (Some "urn:xmpp:whatsapp:dirty") (Some "set") false ["CleanIqProtocolEntity"; "IqProtocolEntity"; "ProtocolEntity"] [] false false None false false false false None ANone;
+  mkKind "send.iq.privacylist" true (Some MPrivacy) "iq" (Some "jabber:iq:privacy") (Some "get") false ["PrivacyListIqProtocolEntity"; "IqProtocolEntity"; "ProtocolEntity"] [] false false None false false false false None ANone;
+  mkKind "send.iq.ping" true None "iq" (Some "w:p") (Some "get") false ["PingIqProtocolEntity"; "IqProtocolEntity"; "ProtocolEntity"] [] false false None false false false false None ANone;
+  mkKind "send.iq.lastseen" true None "iq" (Some "jabber:iq:last") (Some "get") false ["LastseenIqProtocolEntity"; "IqProtocolEntity"; "ProtocolEntity"] [] false false None false false false false None ANone;
+  mkKind "send.iq.groups.create" true (Some MGroups) "iq" (Some "w:g2") (Some "set") false ["CreateGroupsIqProtocolEntity"; "GroupsIqProtocolEntity"; "IqProtocolEntity"; "ProtocolEntity"] [] false false None false false false false None ANone;
+  mkKind "send.iq.groups.info" true (Some MGroups) "iq" (Some "w:g2") (Some "get") false ["InfoGroupsIqProtocolEntity"; "GroupsIqProtocolEntity"; "IqProtocolEntity"; "ProtocolEntity"] [] false false None false false false false None ANone;
+  mkKind "send.iq.groups.leave" true (Some MGroups) "iq" (Some "w:g2") (Some "set") false ["LeaveGroupsIqProtocolEntity"; "GroupsIqProtocolEntity"; "IqProtocolEntity"; "ProtocolEntity"] [] false false None false false false false None ANone;
+  mkKind "send.iq.groups.list" true (Some MGroups) "iq" (Some "w:g2") (Some "get") false ["ListGroupsIqProtocolEntity"; "GroupsIqProtocolEntity"; "IqProtocolEntity"; "ProtocolEntity"] [] false false None false false false false None ANone;
+  mkKind "send.iq.groups.subject" true (Some MGroups) "iq" (Some "w:g2") (Some "set") false ["SubjectGroupsIqProtocolEntity"; "GroupsIqProtocolEntity"; "IqProtocolEntity"; "ProtocolEntity"] [] false false None false false false false None ANone;
+  mkKind "send.iq.groups.participants" true (Some MGroups) "iq" (Some "w:g2") (Some "set") false ["ParticipantsGroupsIqProtocolEntity"; "GroupsIqProtocolEntity"; "IqProtocolEntity"; "ProtocolEntity"] [] false false None false false false false None ANone;
+  mkKind "send.iq.groups.participants.add" true (Some MGroups) "iq" (Some "w:g2") (Some "set") false ["AddParticipantsIqProtocolEntity"; "ParticipantsGroupsIqProtocolEntity"; "GroupsIqProtocolEntity"; "IqProtocolEntity"; "ProtocolEntity"] [] false false None false false false false None ANone;
+  mkKind "send.iq.groups.participants.promote" true (Some MGroups) "iq" (Some "w:g2") (Some "set") false ["PromoteParticipantsIqProtocolEntity"; "ParticipantsGroupsIqProtocolEntity"; "GroupsIqProtocolEntity"; "IqProtocolEntity"; "ProtocolEntity"] [] false false None false false false false None ANone;
+  mkKind "send.iq.groups.participants.demote" true (Some MGroups) "iq" (Some "w:g2") (Some "set") false ["DemoteParticipantsIqProtocolEntity"; "ParticipantsGroupsIqProtocolEntity"; "GroupsIqProtocolEntity"; "IqProtocolEntity"; "ProtocolEntity"] [] false false None false false false false None ANone;
+  mkKind "send.iq.groups.participants.remove" true (Some MGroups) "iq" (Some "w:g2") (Some "set") false ["RemoveParticipantsIqProtocolEntity"; "ParticipantsGroupsIqProtocolEntity"; "GroupsIqProtocolEntity"; "IqProtocolEntity"; "ProtocolEntity"] [] false false None false false false false None ANone;
+  mkKind "send.iq.picture.get" true (Some MProfiles) "iq" (Some "w:profile:picture") (Some "get") false ["GetPictureIqProtocolEntity"; "PictureIqProtocolEntity"; "IqProtocolEntity"; "ProtocolEntity"] [] false false None false false false false None ANone;
+  mkKind "send.iq.picture.set" true (Some MProfiles) "iq" (Some "w:profile:picture") (Some "set") false ["SetPictureIqProtocolEntity"; "PictureIqProtocolEntity"; "IqProtocolEntity"; "ProtocolEntity"] [] false false None false false false false None ANone;
+  mkKind "send.iq.picture.list" true (Some MProfiles) "iq" (Some "w:profile:picture") (Some "get") false ["ListPicturesIqProtocolEntity"; "PictureIqProtocolEntity"; "IqProtocolEntity"; "ProtocolEntity"] [] false false None false false false false None ANone;
+  mkKind "send.iq.privacy.get" true (Some MProfiles) "iq" (Some "privacy") (Some "get") false ["GetPrivacyIqProtocolEntity"; "IqProtocolEntity"; "ProtocolEntity"] [] false false None false false false false None ANone;
+  mkKind "send.iq.privacy.set" true (Some MProfiles) "iq" (Some "privacy") (Some "set") false ["SetPrivacyIqProtocolEntity"; "IqProtocolEntity"; "ProtocolEntity"] [] false false None false false false false None ANone;
+  mkKind "send.iq.statuses.get" true (Some MProfiles) "iq" (Some "status") (Some "get") false ["GetStatusesIqProtocolEntity"; "IqProtocolEntity"; "ProtocolEntity"] [] false false None false false false false None ANone;
+  mkKind "send.iq.status.set" true (Some MProfiles) "iq" (Some "status") (Some "set") false ["SetStatusIqProtocolEntity"; "IqProtocolEntity"; "ProtocolEntity"] [] false false None false false false false None ANone;
+  mkKind "send.iq.requestupload" true (Some MMedia) "iq" (Some "w:m") (Some "set") false ["RequestUploadIqProtocolEntity"; "IqProtocolEntity"; "ProtocolEntity"] [] false false None false false false false None ANone
 ].
 
 (* requests that register reply callbacks: (send kind, class for a result reply, class for an error reply) *)
